@@ -1,26 +1,161 @@
-(* C01 Longest match with first-rule priority, recovered by backtracking.
-   Here: the backtrack-elision analysis (L5). The for-all-inputs run-time theorem is in the
-   second part of this file once RuntimeProofs/ScanOkProofs are in the build (see DESIGN.md). *)
-From LexVerif Require Import Base CharClass RangeMap Regex Nfa Dfa BacktrackProofs.
+(* C01 Longest match with first-rule priority, recovered by backtracking. *)
+From LexVerif Require Import Base CharClass RangeMap Regex Spec SpecExec LexSpec Nfa Dfa NfaToDfa NfaSem Codegen
+     Runtime ScanIface RulesetSem Driver SpecDef ClassAlgProofs RuntimeProofs RuntimeLemmas ScanOkProofs
+     RulesetSemProofs LexSpecProofs LexSpecFacts EndToEnd Harness.
+From LexVerif Require Import BacktrackProofs.
 
-(* soundness of the "no rewind needed" decision: whenever an edge s -> t leaves a state that is
-   accepting or itself flagged, t is flagged; so a state with flag = false and no accepting list
-   is only reachable along paths without any accepting state, where last_match = None *)
+(* ---- the backtrack-elision analysis (L5) ---- *)
 Theorem c01_flags_sound : forall d d',
   targets_ok d -> update_backtracks d = Ok d' -> same_but_flags d d' /\ flags_sound d'.
 Proof. exact update_backtracks_sound. Qed.
 
-(* precision: a flag is set only when some path from an initial state really passes through an
-   accepting state before *)
 Theorem c01_flags_precise : forall d d' t,
   update_backtracks d = Ok d' -> t < length d -> d_bt (dget d' t) = true -> reach_acc d t true.
 Proof. exact update_backtracks_precise. Qed.
 
-(* the hypothesis targets_ok is necessary (the statement without it is refuted) *)
 Theorem c01_flags_sound_needs_targets_ok :
   exists d d', update_backtracks d = Ok d' /\ ~ flags_sound d'.
 Proof. exact sound_needs_targets_ok. Qed.
 
+(* the reference selection is the textbook maximal-munch selection stated with Spec.lang only *)
+Theorem c01_select_is_maximal_munch : forall (benv : builtin_env) rules w r k e,
+  (forall r, In r rules -> rule_closed r) ->
+  select benv rules w = Some (r, (k, e)) ->
+  exists i, nth_error rules i = Some r /\ candidate benv r w k e /\
+    (forall r' k' e', In r' rules -> candidate benv r' w k' e' -> le_ke (k', e') (k, e)) /\
+    (forall j r', j < i -> nth_error rules j = Some r' -> ~ candidate benv r' w k e).
+Proof. exact select_some. Qed.
+
+Theorem c01_select_none : forall (benv : builtin_env) rules w,
+  (forall r, In r rules -> rule_closed r) ->
+  select benv rules w = None -> forall r k e, In r rules -> ~ candidate benv r w k e.
+Proof. exact select_none. Qed.
+
+Theorem c01_select_complete : forall (benv : builtin_env) rules w r k e,
+  (forall r, In r rules -> rule_closed r) ->
+  In r rules -> candidate benv r w k e ->
+  exists r0 k0 e0, select benv rules w = Some (r0, (k0, e0)).
+Proof. exact select_complete. Qed.
+
+Corollary c01_longest : forall (benv : builtin_env) rules w r k e,
+  (forall r, In r rules -> rule_closed r) ->
+  select benv rules w = Some (r, (k, e)) ->
+  forall r' k' e', In r' rules -> candidate benv r' w k' e' -> k' <= k.
+Proof. exact select_longest. Qed.
+
+(* ------------------------------------------------------------------------------------------
+   The run-time theorem (L7): for any program satisfying the scanner facts [scan_ok] (proved for
+   every compiled definition whose automata pass the certificates: c01_compiled_scan_ok below),
+   for ALL inputs of scalar values, user states and action functions, the generated next() and
+   the reference semantics produce the same item and end in related states; iterated: the same
+   stream. No fuel is exhausted and no Panic outcome (failed unwrap / index / slice) occurs. *)
+Theorem c01_next_simulates :
+  forall (benv : builtin_env) (width : N -> N) (tab_width : N) (T E U : Type) (prog : program)
+         (rss : list (list crule)) (cidx : nat -> option nat) (entry : nat -> nat)
+         (At : nat -> list N -> nat -> Prop) (actions : nat -> action T E U),
+  scan_ok benv prog rss cidx entry At ->
+  (forall (a : nat) (v : view) (u : U) (n : nat),
+      a_switch (actions a v u) = Some n -> n < length (p_switch prog)) ->
+  forall (l : lexer U) (s : sstate U) (fuel : positive),
+  RuntimeProofs.sim T E U prog rss entry actions l s ->
+  enough_fuel U fuel l ->
+  exists fuel' : nat,
+    match spec_next benv width tab_width T E U rss actions fuel' s with
+    | Some (oi, s') =>
+        exists l' : lexer U,
+          next width tab_width T E U prog actions fuel l = (outcome_of T E oi, l') /\
+          RuntimeProofs.sim T E U prog rss entry actions l' s'
+    | None => False
+    end.
+Proof. exact next_simulates. Qed.
+
+Theorem c01_stream :
+  forall (benv : builtin_env) (width : N -> N) (tab_width : N) (T E U : Type) (prog : program)
+         (rss : list (list crule)) (cidx : nat -> option nat) (entry : nat -> nat)
+         (At : nat -> list N -> nat -> Prop) (actions : nat -> action T E U),
+  scan_ok benv prog rss cidx entry At ->
+  (forall (a : nat) (v : view) (u : U) (n : nat),
+      a_switch (actions a v u) = Some n -> n < length (p_switch prog)) ->
+  forall (whole : list N) (u : U) (with_str : bool) (n : nat) (fuel : positive),
+  Forall (fun c : N => is_scalar c = true) whole ->
+  (with_str = false -> RuntimeProofs.text_blind T E U actions) ->
+  enough_fuel U fuel (lexer_new U whole u with_str) ->
+  exists r : list (option (item T E)),
+    spec_run benv width tab_width T E U rss actions n (s_init U whole u) r /\
+    run_lexer width tab_width T E U prog actions n fuel (lexer_new U whole u with_str) =
+    map (outcome_of T E) r.
+Proof. exact lexer_stream_correct. Qed.
+
+Theorem c01_compiled_scan_ok :
+  forall (benv : builtin_env) (mg : nat) (d : def) (c : compiled) (rss : list (list crule))
+         (cidx : nat -> option nat),
+  compile benv mg d = Ok c ->
+  length (c_rulesets c) = length rss ->
+  (forall (k : nat) (ra : ruleset_art), nth_error (c_rulesets c) k = Some ra ->
+      ruleset_sem benv (nth k rss []) cidx (ra_dfa ra)) ->
+  (forall (k : nat) (r : crule), In r (nth k rss []) -> cidx (cr_act r) = None <-> cr_ctx r = None) ->
+  (forall (k : nat) (r : crule) (i : nat) (cre : regex),
+      In r (nth k rss []) -> cidx (cr_act r) = Some i -> cr_ctx r = Some cre ->
+      exists ca : ctx_art, nth_error (c_ctxs c) i = Some ca /\ ctx_sem benv mg cre (ca_dfa ca)) ->
+  (forall (k : nat) (r : crule), In r (nth k rss []) -> nullable (of_regex benv (cr_re r)) = false) ->
+  scan_ok benv (c_program c) rss cidx (c_entry c) (c_At c).
+Proof. exact compile_scan_ok_wit. Qed.
+
+(* the per-rule-set facts follow from the Thompson theorem and the subset certificate *)
+Theorem c01_ruleset_sem :
+  forall (benv : builtin_env) (rules : list rob) (b : bindings) (ctxs0 : list ctx_art) (n : nfa)
+         (ctxs : list ctx_art) (crules : list crule) (d : dfa nat) (m : state_map)
+         (cidx : nat -> option nat),
+  benv_wf benv ->
+  compile_rules benv rules nfa_new b ctxs0 = Ok (n, ctxs) ->
+  close_rules rules b = Ok crules ->
+  Forall (fun r : crule => wf_crule benv r = true) crules ->
+  Forall (fun r : crule => regex_chars_ok benv (cr_re r) = true) crules ->
+  (forall (k : nat) (r : crule), nth_error crules k = Some r ->
+      cidx (cr_act r) = nth k (ctx_indices (length ctxs0) crules) None) ->
+  dfa_closed n d m -> 0 < length d -> dfa_shape_ok d -> ruleset_sem benv crules cidx d.
+Proof. exact ruleset_sem_of_closed_wf_crule. Qed.
+
+(* ------------------------------------------------------------------------------------------
+   End to end: for every well-formed definition the model of the macro compiles (compile = Ok c),
+   whose automata pass the certificates (decided by the proved-sound boolean checker certs_ok_b,
+   which the correspondence check runs on the automata dumped by the REAL macro), the generated
+   lexer's stream on every input of scalar values, with every user state and all action
+   functions, is the stream of the reference semantics (maximal munch, first rule, right
+   contexts, end of input, failures, actions). *)
+Theorem c01_lexer_correct :
+  forall benv mg (width : N -> N) tab_width (T E U : Type) (d : def) c rss
+         (actions : nat -> action T E U),
+  benv_wf benv ->
+  compile benv mg d = Ok c ->
+  def_rulesets d = Ok rss ->
+  wf_def benv d = true ->
+  def_chars_ok benv rss ->
+  certs_ok c ->
+  acts_distinct d ->
+  (forall a v u n, a_switch (actions a v u) = Some n -> n < length (p_switch (c_program c))) ->
+  forall whole u with_str,
+    Forall (fun ch => is_scalar ch = true) whole ->
+    (with_str = false -> RuntimeProofs.text_blind T E U actions) ->
+  forall n fuel, enough_fuel U fuel (lexer_new U whole u with_str) ->
+  exists r, spec_run benv width tab_width T E U rss actions n (s_init U whole u) r /\
+            run_lexer width tab_width T E U (c_program c) actions n fuel
+              (lexer_new U whole u with_str) = map (outcome_of T E) r.
+Proof. exact lexer_correct. Qed.
+
+Theorem c01_certificates_sound : forall c, certs_ok_b c = true -> certs_ok c.
+Proof. exact certs_ok_b_sound. Qed.
+
 Print Assumptions c01_flags_sound.
 Print Assumptions c01_flags_precise.
 Print Assumptions c01_flags_sound_needs_targets_ok.
+Print Assumptions c01_select_is_maximal_munch.
+Print Assumptions c01_select_none.
+Print Assumptions c01_select_complete.
+Print Assumptions c01_longest.
+Print Assumptions c01_next_simulates.
+Print Assumptions c01_stream.
+Print Assumptions c01_compiled_scan_ok.
+Print Assumptions c01_ruleset_sem.
+Print Assumptions c01_lexer_correct.
+Print Assumptions c01_certificates_sound.
